@@ -90,7 +90,16 @@ class OneHotCase:
         from synapgrad.nn.utils.data import one_hot_encode
         n = self.spec["n"]
         out = E.Outcome()
-        y = env.arr("y", (n,), np.float64, lo=-3, hi=3, kind="hyper")
+        r = self.spec.get("range", 3)
+        # integer variant: the real-valued pre-images only select the integer (kind "data": exactly integral pre-images are no
+        # separate branch); real variant: equal labels are ordinary branches (kind "hyper")
+        y = env.arr("y", (n,), np.float64, lo=-r, hi=r, lo_strict=True, hi_strict=True, kind="data" if self.spec.get("int") else "hyper")
+        if self.spec.get("int"):
+            # integer labels (the usual case): the symbolic values are cast concolically, so that the solver-checked path
+            # coverage enumerates every integer label vector in the range, negative labels and gaps included
+            y = y.astype(np.int64)
+            if self.spec.get("as_list"):
+                y = [int(v) for v in y]
         enc = one_hot_encode(y)
         vals = [y[i] for i in range(n)]
         # reference: rank of label i among the sorted distinct labels
@@ -173,6 +182,9 @@ def enumerate_specs(tier):
                 specs.append({"kind": "split", "n": n, "perm": perm, "val": val})
     for n in range(1, (3 if tier == "quick" else 5) + 1):
         specs.append({"kind": "onehot", "n": n})
+        if n <= (2 if tier == "quick" else 3):       # labels -2..2 (n <= 2) or -1..1 (n = 3, thorough)
+            specs.append({"kind": "onehot", "n": n, "int": True, "range": 3 if n <= 2 else 2})
+    specs.append({"kind": "onehot", "n": 2, "int": True, "as_list": True})
     return specs
 
 
@@ -242,7 +254,7 @@ def main(tier, seed):
         PROP, tier, seed, results, t0,
         bounds={"split_dataset": "n <= %d samples with 2 features, all permutations (n <= 3; sampled for n = 4), split fractions symbolic "
                                  "in [0,1]" % (3 if tier == "quick" else 4),
-                "one_hot_encode": "n <= %d symbolic labels, every weak ordering" % (3 if tier == "quick" else 4),
+                "one_hot_encode": "n <= %d symbolic real labels, every weak ordering; n <= 2 integer labels in -2..2 / n = 3 in -1..1 (array and list), every label vector" % (3 if tier == "quick" else 5),
                 "DataLoader (CrossHair)": "lists of <= %d symbolic ints, batch size 1..%d, with and without transform" % (maxn, 4 if tier == "quick" else 6),
                 "DataLoader (SMT lemma)": lem.get("bounds")},
         assumptions=["np.random.shuffle applies an arbitrary permutation (enumerated)", "floats are reals",
